@@ -4,22 +4,32 @@ import Std.Data.HashMap
 Imports the core-only model; no Mathlib. -/
 open Epsic Epsic.Driver
 
-def table (group : String) : Option (List (String × OpFn)) :=
+abbrev OpS := Rd (List String)
+def ratOps (t : List (String × OpFn)) : List (String × OpS) :=
+  t.map (fun (n, f) => (n, (do let l ← f; pure (l.map ratStr) : OpS)))
+
+def table (group : String) : Option (List (String × OpS)) :=
   match group with
-  | "alg" => some opsAlg
-  | "alias" => some opsAlias
-  | "lin" => some opsLin
+  | "alg" => some (ratOps opsAlg)
+  | "alias" => some (ratOps opsAlias)
+  | "lin" => some (ratOps opsLin)
+  | "est" => some (ratOps opsEstRat ++ opsEstFloat)
   | _ => none
 
-def runLine (ops : Std.HashMap String OpFn) (line : String) : String :=
+def outLineS (x : Except Err (List String)) : String :=
+  match x with
+  | .ok l => l.foldl (fun s r => s ++ " " ++ r) "ok"
+  | .error e => "err " ++ e.toString
+
+def runLine (ops : Std.HashMap String OpS) (line : String) : String :=
   match (line.trimAscii.toString.splitOn " ").filter (· ≠ "") with
   | [] => "err empty"
   | name :: args =>
     match ops.get? name with
     | none => "err unknown-op"
-    | some f => outLine ((f.run args).map (·.1))
+    | some f => outLineS ((f.run args).map (·.1))
 
-partial def loop (ops : Std.HashMap String OpFn) (h : IO.FS.Stream) (out : IO.FS.Stream) : IO Unit := do
+partial def loop (ops : Std.HashMap String OpS) (h : IO.FS.Stream) (out : IO.FS.Stream) : IO Unit := do
   let line ← h.getLine
   if line.isEmpty then return ()
   let l := line.trimAscii.toString
@@ -32,7 +42,7 @@ def main (args : List String) : IO UInt32 := do
     match table grp with
     | none => IO.eprintln s!"unknown group {grp}"; return 2
     | some t =>
-      let ops : Std.HashMap String OpFn := Std.HashMap.ofList t
+      let ops : Std.HashMap String OpS := Std.HashMap.ofList t
       loop ops (← IO.getStdin) (← IO.getStdout)
       return 0
   | _ => IO.eprintln "usage: epsic_driver <group>"; return 2
